@@ -1518,6 +1518,7 @@ var Pre func(r *ev.Run)
 var replayType, replayCase string
 
 func Main(prop, level string, rule string, assumptions ...string) {
+	gcore.BigLists = prop != "C08" && prop != "C17"
 	for i, a := range os.Args {
 		if a == "--replay-case" && i+1 < len(os.Args) {
 			// "<rt>/<file>/<Msg>/<case id>[/<variant or mutation>]": re-run every oracle of the property on that one value tree
